@@ -91,11 +91,38 @@ def add_memory_env(c, port, name, A, lane, init_byte, Q=3, min_write_delay=2):
     """environment behind `port` (the DUT is the master of this port).  A: watched address term, lane: watched byte lane
     term (both rigid), init_byte: rigid initial content.  Free inputs expected: port.cmd.ready, port.wdata.ready,
     port.rdata.valid, port.rdata.data."""
-    nl = len(port.wdata.we) if hasattr(port, "wdata") else len(port.rdata.data) // 8
-    acc = lambda f: And(f.b(port.cmd.valid), f.b(port.cmd.ready))
-    hit = lambda f: f(port.cmd.addr) == A
-    wstrobe = lambda f: f.b(port.wdata.ready) if port.mode != "read" else z3.BoolVal(False)
-    rret = lambda f: f.b(port.rdata.valid) if port.mode != "write" else z3.BoolVal(False)
+    return _memory_env(c, name, A, lane, init_byte, Q, min_write_delay,
+                       wport=port if port.mode != "read" else None, rport=port if port.mode != "write" else None)
+
+
+def add_shared_memory_env(c, wport, rport, name, A, lane, init_byte, Q=3, min_write_delay=2):
+    """one memory behind a write-only and a read-only port (two crossbar ports of the same core): commands of both ports
+    are ordered by acceptance (restriction of this environment: at most one of the two ports is accepted per cycle)"""
+    return _memory_env(c, name, A, lane, init_byte, Q, min_write_delay, wport=wport, rport=rport)
+
+
+def _memory_env(c, name, A, lane, init_byte, Q, min_write_delay, wport, rport):
+    same = wport is rport or wport is None or rport is None
+    anyp = wport if wport is not None else rport
+    nl = len(wport.wdata.we) if wport is not None else len(rport.rdata.data) // 8
+    pacc = lambda f, p: And(f.b(p.cmd.valid), f.b(p.cmd.ready))
+    if same:
+        acc = lambda f: pacc(f, anyp)
+        is_we = lambda f: f.b(anyp.cmd.we)
+        hit = lambda f: f(anyp.cmd.addr) == A
+    else:
+        accw = (lambda f: pacc(f, wport)) if wport is not None else (lambda f: z3.BoolVal(False))
+        accr = (lambda f: pacc(f, rport)) if rport is not None else (lambda f: z3.BoolVal(False))
+        acc = lambda f: Or(accw(f), accr(f))
+        is_we = accw
+        hit = lambda f: If_(accw(f), f(wport.cmd.addr) == A, f(rport.cmd.addr) == A) if (wport is not None and rport is not None) \
+            else f(anyp.cmd.addr) == A
+        if wport is not None and rport is not None:
+            c.assume(name + ".one_port_accepted_per_cycle", lambda f: Not(And(accw(f), accr(f))))
+            c.assume(name + ".ports_carry_their_direction", lambda f: And(
+                Implies(f.b(wport.cmd.valid), f.b(wport.cmd.we)), Implies(f.b(rport.cmd.valid), Not(f.b(rport.cmd.we)))))
+    wstrobe = (lambda f: f.b(wport.wdata.ready)) if wport is not None else (lambda f: z3.BoolVal(False))
+    rret = (lambda f: f.b(rport.rdata.valid)) if rport is not None else (lambda f: z3.BoolVal(False))
     # one queue of outstanding commands, each with: we, hit, served
     # (served entries are retired from the head, one per cycle)
     gq = {}
@@ -134,7 +161,7 @@ def add_memory_env(c, port, name, A, lane, init_byte, Q=3, min_write_delay=2):
                     nx = If_(served_now(f, i + 1), BV(1, 1), nx)
                 shifted = If_(retire(f), nx, cur)
                 pos = If_(retire(f), cnt(f) - 1, cnt(f))
-                newv = {"we": bv1(f.b(port.cmd.we)), "hit": bv1(hit(f)), "sv": BV(0, 1)}[fld]
+                newv = {"we": bv1(is_we(f)), "hit": bv1(hit(f)), "sv": BV(0, 1)}[fld]
                 return If_(And(acc(f), pos == i), newv, shifted)
             return nxt
         for fld in ("we", "hit", "sv"):
@@ -150,19 +177,20 @@ def add_memory_env(c, port, name, A, lane, init_byte, Q=3, min_write_delay=2):
         c.ghost("%s.age%d" % (name, i), 2, 0, age_nxt)
     c.invariant(name + ".queue_range", lambda f: ULE(cnt(f), BV(Q, cw)))
     # memory content of the watched byte
-    if port.mode != "read":
+    if wport is not None:
         def mem_next(f):
             sw, fw = oldest(f, True)
             whit = Or(*[And(sw[i], G(f, "hit%d" % i) == 1) for i in range(Q)])
-            en = bit_at(f(port.wdata.we), lane, nl) == 1
-            return If_(And(wstrobe(f), whit, en), byte_at(f(port.wdata.data), lane, nl), G(f, "mem"))
+            en = bit_at(f(wport.wdata.we), lane, nl) == 1
+            return If_(And(wstrobe(f), whit, en), byte_at(f(wport.wdata.data), lane, nl), G(f, "mem"))
         c.ghost(name + ".mem", 8, init_byte, mem_next)
     else:
         c.ghost(name + ".mem", 8, init_byte, lambda f: G(f, "mem"))
     c.assume(name + ".initial_content", lambda f: z3.BoolVal(True))
     # ---- environment behaviour (constraints on the free inputs)
     c.assume(name + ".accepts_only_with_queue_space", lambda f: Implies(
-        f.b(port.cmd.ready), ULT(If_(retire(f), cnt(f) - 1, cnt(f)), BV(Q, cw))))
+        Or(*[f.b(p.cmd.ready) for p in ([anyp] if same else [p_ for p_ in (wport, rport) if p_ is not None])]),
+        ULT(If_(retire(f), cnt(f) - 1, cnt(f)), BV(Q, cw))))
 
     def conflict_free(f, sel, want_we):
         """the served entry, if it hits the watched address, has no older unserved entry of the other kind that hits"""
@@ -171,15 +199,15 @@ def add_memory_env(c, port, name, A, lane, init_byte, Q=3, min_write_delay=2):
             older = [And(G(f, "hit%d" % j) == 1, (G(f, "we%d" % j) == 1) != want_we, G(f, "sv%d" % j) == 0) for j in range(i)]
             cl.append(Implies(And(sel[i], G(f, "hit%d" % i) == 1), Not(Or(*older)) if older else True))
         return And(*cl)
-    if port.mode != "read":
+    if wport is not None:
         c.assume(name + ".write_strobe_serves_oldest_pending_write", lambda f: Implies(
             wstrobe(f), And(oldest(f, True)[1], conflict_free(f, oldest(f, True)[0], True))))
-    if port.mode != "write":
+    if rport is not None:
         def rd_ok(f):
             sr, fr = oldest(f, False)
             rhit = Or(*[And(sr[i], G(f, "hit%d" % i) == 1) for i in range(Q)])
             return Implies(rret(f), And(fr, conflict_free(f, sr, False),
-                                        Implies(rhit, byte_at(f(port.rdata.data), lane, nl) == G(f, "mem"))))
+                                        Implies(rhit, byte_at(f(rport.rdata.data), lane, len(rport.rdata.data) // 8) == G(f, "mem"))))
         c.assume(name + ".read_return_serves_oldest_pending_read_with_memory_content", rd_ok)
     return dict(G=G, cnt=cnt, acc=acc, hit=hit)
 
